@@ -353,6 +353,7 @@ class FramingCtx(object):
                 toks.append(("lose", e[3]))
             elif e[2] == "h" and e[3] == "on_established":
                 toks.append(("estab",))
+        toks = base.normalise_close_order(toks)
         # events: frames up to the first opaque one
         evs = []
         known = []
